@@ -28,6 +28,7 @@ type Frame struct {
 	inSpec     bool      // evaluating a contract expression: no safety obligations
 	scopeAt    token.Pos // position for local-name lookup in loop invariants
 	boxed      map[*types.Var]bool
+	memo       map[*ast.CallExpr]Val // results of calls being re-run path by path (withFork)
 	pointees   []pointee
 	paramCells []*Cell
 	defers     []*ast.CallExpr
@@ -834,10 +835,10 @@ func (v *Verifier) evalBinary(fr *Frame, st *State, x *ast.BinaryExpr) Val {
 			heapSnap[k] = h
 		}
 		r := v.asBool(v.eval(fr, st, x.Y), x.Pos())
-		// RHS side effects on the heap are not supported under a guard
+		// RHS heap effects (e.g. boxing a by-value array in an inlined callee) happen only under the guard
 		for k, h := range st.heaps {
 			if o, ok := heapSnap[k]; ok && o != h {
-				panic(unsupportedf(x.Pos(), "side effect in short-circuit operand"))
+				st.heaps[k] = c.Ite(guard, h, o)
 			}
 		}
 		extra := st.pc[n+1:]
